@@ -501,11 +501,46 @@ func checkExtractMatrices(c *Ctx, f *ssa.Function) string {
 				if ci, isCI := v.(*ssa.ChangeInterface); isCI {
 					v = ci.X
 				}
+				// the view itself, or its materialised copy
+				var mat ssa.Value
+				if mc, isCall := v.(*ssa.Call); isCall {
+					if nm, recv := tensorMethod(mc); nm == "Materialize" {
+						mat, v = mc, recv
+						if ci, isCI := v.(*ssa.ChangeInterface); isCI {
+							v = ci.X
+						}
+					}
+				}
 				ex, isEx := v.(*ssa.Extract)
 				if ia.Index == outer.idx && isEx && ex.Tuple == ssa.Value(sl) && ex.Index == 0 {
 					okStore = true
 				} else {
 					return "a block is stored at a position other than its own index"
+				}
+				// gorgonia's Slice drops the block axis when hidden == 1 (and returns a scalar for 1x1 blocks): the
+				// block is given its shape (hidden, trailing axes of M...) back before it is handed out
+				restored := false
+				if mat != nil {
+					for _, r := range *mat.Referrers() {
+						rs, isCall := r.(*ssa.Call)
+						if !isCall {
+							continue
+						}
+						if nm, recv := tensorMethod(rs); nm == "Reshape" && recv == mat && (rs.Block().Dominates(st.Block()) && (rs.Block() != st.Block() || instrBefore(rs, st))) {
+							args := rs.Common().Args
+							if ap, isAp := stripConv(args[len(args)-1]).(*ssa.Call); isAp {
+								if bi, isB := ap.Common().Value.(*ssa.Builtin); isB && bi.Name() == "append" {
+									first := varargElems(ap.Common().Args[0])
+									if len(first) == 1 && first[0] == ssa.Value(hidden) && isShapeTail(ap.Common().Args[1], M, 2) {
+										restored = true
+									}
+								}
+							}
+						}
+					}
+				}
+				if !restored {
+					return "a block is handed out with whatever shape gorgonia's Slice leaves: for hidden size 1 the block axis is dropped (W[k] becomes a vector, a bias block a scalar) and the operator refuses a valid model; the block must be reshaped to (hidden, trailing axes of M...)"
 				}
 			}
 		}
@@ -969,3 +1004,20 @@ func guardSaysNegative(gs []guard, v ssa.Value) bool {
 
 var _ = strings.Contains
 var _ = sort.Strings
+
+// isShapeTail: v is t.Shape()[k:] for the tensor value t.
+func isShapeTail(v, t ssa.Value, k int64) bool {
+	sl, ok := stripConv(v).(*ssa.Slice)
+	if !ok || sl.High != nil {
+		return false
+	}
+	if lo, isK := constInt(sl.Low); !isK || lo != k {
+		return false
+	}
+	cl, ok := stripConv(sl.X).(*ssa.Call)
+	if !ok {
+		return false
+	}
+	nm, recv := tensorMethod(cl)
+	return nm == "Shape" && recv == t
+}
